@@ -30,7 +30,7 @@ From AV Require Import Base.Bytes Base.Outcome Hash.HashModel Tree.Heap Tree.Ops
   Tree.MergeSpec Tree.MergePure Tree.LoadProofs Tree.LoadProofsWalk Tree.LoadProofsRefuted
   Tree.MergePureProofsBase Tree.MergePureProofs Tree.MergePureProofsMain Tree.MergePureProofsKeys
   Tree.LoadRefineBase Tree.LoadRefinePure Tree.LoadRefineHeap Tree.LoadRefineMain Tree.LoadRefineGood Tree.LoadRefineTop
-  Tree.LoadEffects Tree.MergeGoodExamples.
+  Tree.LoadEffects Tree.MergeGoodExamples Tree.LoadResidue.
 From AV Require Xml.Lexer Xml.Parser.
 Open Scope N_scope.
 
@@ -370,3 +370,85 @@ Theorem C09_example_sequence_merge :
   TinyS.final [("f0"%string, TinyS.file0); ("f1"%string, TinyS.file1)] = Some (expected None TinyS.master) /\
   TinyS.final [("f1"%string, TinyS.file1); ("f0"%string, TinyS.file0)] = Some (expected None TinyS.master_10).
 Proof. exact (conj TinyS.merge_01 TinyS.merge_10). Qed.
+
+(* ====================================================================== C11, load half: the WHOLE rejected load *)
+(* ---- [U: every table set, world, model, buffer, file name, mode] a load rejected with InvalidFileMerge parsed, and the
+        world after it is in [Residue] (Tree/LoadResidue.v): there are worlds w1, wM, wR, wK such that
+          w  -> w1   the parsed tree was installed on fresh nodes (nothing below the old bound touched: LoadProofs.above),
+          w1' = w1 with the new file record appended,
+          w1' -> wM  the effects of the merge stage (LoadEffects.WorldEff, C11_load_merge_conflict_effects),
+          wM -> wR   the effects of the rollback Element::remove_from_file(new file) at the root (RemEff: files and bound
+                     untouched; a model record keeps root and file list and only LOSES entries of the path index
+                     (swap_remove) and origins of the reference index; a node keeps name, type, attributes, comment; its
+                     parent is kept or cleared, its content only loses items, its membership is kept, or the new file is
+                     removed from a set, or it is cleared — a deleted element),
+          wR -> wK   nodes of the parsed tree that are not reachable from the model root die (nothing below the old bound),
+          wK -> w'   the file record is dropped; memberships that still name it name a dead file id instead. *)
+Theorem C11_load_reject_residue :
+  forall (T : tables) (tab_el tab_at tab_en : nametab) (check_fn : N -> list N -> res bool)
+         (float_parse : list N -> option N) (LATEST name_definition_ref : N)
+         (m : N) (buffer filename : list N) (strict : bool) (w w' : world),
+    m_load_buffer T tab_el tab_at tab_en check_fn float_parse LATEST name_definition_ref m buffer filename strict w
+      = Val (ER InvalidFileMerge, w') ->
+    exists root st,
+      Parser.load strict T tab_el tab_at tab_en check_fn float_parse buffer = Val (Parser.Ret root st) /\
+      Residue m (N.of_nat (List.length (w_files w))) (mkFile m filename (Parser.p_version st) (Parser.p_standalone st)) w w'.
+Proof. exact load_reject_residue. Qed.
+
+(* the rollback alone: Element::remove_from_file has only the effects listed above, whatever it returns *)
+Theorem C11_rollback_effects :
+  forall (T : tables) (f e : N) (w : world) (r : out unit) (w' : world),
+    e_remove_from_file T e f w = Val (r, w') -> RemEff f w w'.
+Proof. exact (fun T f e w r w' H => rem_e_remove_from_file T f e w r w' H). Qed.
+
+(* ---- the consequence for the observation of C11 (Tree/Observe.v) [U]: after a load rejected with InvalidFileMerge the
+        observations differ at most in
+          - the number of handles (it grows: dead nodes of the rejected tree),
+          - per model, entries LOST from the two index maps (root and file list are the same),
+          - per old node: parent (same, an element, or cleared), membership (steps "empty -> explicit" and "add the new
+            file", then removals of the new file / clearing, then the renaming of the dropped file id), and content
+            (insertions of elements, then removals);
+        the files, and name, type, attributes and comment of every node, are the same. *)
+Theorem C11_load_reject_observable :
+  forall (T : tables) (tab_el tab_at tab_en : nametab) (check_fn : N -> list N -> res bool)
+         (float_parse : list N -> option N) (LATEST name_definition_ref : N)
+         (m : N) (buffer filename : list N) (strict : bool) (w w' : world),
+    m_load_buffer T tab_el tab_at tab_en check_fn float_parse LATEST name_definition_ref m buffer filename strict w
+      = Val (ER InvalidFileMerge, w') ->
+    let fid := N.of_nat (List.length (w_files w)) in
+    o_next (observe w) <= o_next (observe w') /\
+    o_files (observe w') = o_files (observe w) /\
+    Forall2 ModelRem (o_models (observe w)) (o_models (observe w')) /\
+    exists d, forall k, (k < N.to_nat (o_next (observe w)))%nat ->
+      match nth_error (o_nodes (observe w)) k, nth_error (o_nodes (observe w')) k with
+      | Some (Some n), Some (Some n') => NodeResidue fid d n n'
+      | Some None, Some None => True
+      | _, _ => False
+      end.
+Proof. exact load_reject_observable. Qed.
+
+(* ---- a decidable sufficient condition for NO observable change [U]: [quiet_load] (a boolean computed from the world and
+        the parsed tree: install, then follow the merge as long as every executed step is the identity on the node it
+        touches — sub-elements that only the model has already have an explicit membership, nothing is imported, the pairs
+        merged before the conflict merge without change and inherit their membership — until the walk of some level
+        reports the conflict), for a world in which no membership names the file id the load would get (FreshIn: ids of
+        registered files only).  Then the rejected load satisfies the conclusion of C11. *)
+Theorem C11_load_reject_quiet :
+  forall (T : tables) (tab_el tab_at tab_en : nametab) (check_fn : N -> list N -> res bool)
+         (float_parse : list N -> option N) (LATEST name_definition_ref : N)
+         (m : N) (buffer filename : list N) (strict : bool) (w w' : world) (root : Parser.etree) (st : Parser.pstate),
+    Parser.load strict T tab_el tab_at tab_en check_fn float_parse buffer = Val (Parser.Ret root st) ->
+    FreshIn (N.of_nat (List.length (w_files w))) w ->
+    quiet_load T LATEST name_definition_ref m filename root st w = true ->
+    m_load_buffer T tab_el tab_at tab_en check_fn float_parse LATEST name_definition_ref m buffer filename strict w
+      = Val (ER InvalidFileMerge, w') ->
+    obs_eq_upto_garbage w w'.
+Proof. exact load_reject_quiet. Qed.
+
+(* the condition is met by a conflict below a freshly loaded model, and not by the residue example *)
+Theorem C11_load_reject_quiet_examples :
+  quiet_load TinyM.tiny TinyM.LATEST TinyM.DEFREF 0 (BS "b") QuietExample.conf_b
+             (pstate_of TinyM.tiny 2 QuietExample.conf_b) (QuietExample.after QuietExample.conf_a2) = true /\
+  quiet_load TinyM.tiny TinyM.LATEST TinyM.DEFREF 0 (BS "b") QuietExample.conf_b
+             (pstate_of TinyM.tiny 2 QuietExample.conf_b) (QuietExample.after QuietExample.conf_a) = false.
+Proof. exact (conj QuietExample.quiet_yes QuietExample.quiet_no). Qed.
